@@ -183,6 +183,25 @@ def wireStep (st : WState) (ws : List String) : WState × String :=
       (st, s!"status={fmtStatus r.status} prep={prep}{w_fmtParts r.received}")
     | _, _, _, _, _ => (st, "bad-op")
   | ["putgz", _level, _num, _den] => (st, "unmodelled")
+  | ["http2", level] =>
+    -- two overlapping Transmit calls of ONE client for a payload whose parts are all readable ranges: each request
+    -- is encoded and compressed on its own, so both are answered 200 with all parts
+    match parseNat? level with
+    | some l =>
+      if l > 9 then (st, "bad-op")
+      else if st.binned.isEmpty then (st, "noparts")
+      else if st.binned.any (fun p => p.d.beg < 0 ∨ p.flen < p.d.fin) then (st, "skip")
+      else
+        -- only payloads that ONE request delivers completely (stub receiver) are sent in parallel
+        let ds := st.binned.map (·.d)
+        let c := caseCodec ds
+        let body := transmitBody c 0 ds (st.binned.map wFile)
+          (cyc [32768] ((st.binned.map (fun p => (p.d.fin - p.d.beg).toNat)).foldl (· + ·) 0 + st.binned.length + 2))
+        let r := routeData c .stub false true (metaLenHeader c ds) (some '/') 0 ⟨body, false⟩
+        match r.status with
+        | .ok200 => (st, s!"n={st.binned.length} ok n={st.binned.length} ok")
+        | _ => (st, "skip")
+    | none => (st, "bad-op")
   | ["http", gk, level] =>
     let rk? : Option RecvKind := if gk == "stub" then some .stub else if gk == "stage" then some .stage else none
     match rk?, parseNat? level with
